@@ -65,6 +65,18 @@ func (g *gen) numArg(n int64) V {
 	}
 }
 
+// an OPTIONAL numeric argument that is present: explicit undefined and null are first-class
+// (omission is decided by the caller through the argument count)
+func (g *gen) optNum(n int64) V {
+	switch g.r.Intn(8) {
+	case 0:
+		return vUndef
+	case 1:
+		return vNull
+	}
+	return g.numArg(n)
+}
+
 func (g *gen) slots(n int, holeMode int) []*V {
 	a := make([]*V, n)
 	for i := range a {
@@ -170,6 +182,22 @@ func (g *gen) cbScript(n int64, mode int) []CbStep {
 			st[i].mut, st[i].k, st[i].v = 'p', kIdx(int64(r.Intn(int(n)+1))), g.val()
 		}
 	}
+	if mode == 3 { // most steps act on the element the callback is visiting; results mostly truthy
+		k = int(n) + 1
+		st = make([]CbStep, k)
+		for i := range st {
+			st[i].ret = Pick(r, []V{vBool(true), vBool(true), vNum(1), vStr("x"), vBool(false), vUndef, vNum(float64(r.Intn(9)))})
+			switch c := r.Intn(10); {
+			case c < 4:
+				st[i].mut, st[i].v = 'P', g.val()
+			case c < 6:
+				st[i].mut = 'D'
+			case c < 7:
+				st[i].mut, st[i].gid, st[i].gp = 'G', 50+i, r.Intn(9)
+			}
+		}
+		return st
+	}
 	switch {
 	case mode == 1 && k > 0:
 		mutate(r.Intn(min(k, 2)))
@@ -209,7 +237,7 @@ func (g *gen) call(rc Recv, m int) Op {
 	switch m {
 	case 0: // join
 		if r.Intn(2) == 0 {
-			op.args = []Arg{av(Pick(r, []V{vUndef, vStr(","), vStr("-"), vStr(""), vNull, vNum(1), vStr("ab"), vBool(true)}))}
+			op.args = []Arg{av(Pick(r, []V{vUndef, vUndef, vNull, vNull, vStr(","), vStr("-"), vStr(""), vNum(1), vStr("ab"), vBool(true)}))}
 		}
 	case 1, 3, 4:
 		if r.Intn(8) == 0 {
@@ -221,12 +249,12 @@ func (g *gen) call(rc Recv, m int) Op {
 		}
 	case 5: // slice
 		for i := Pick(r, []int{0, 1, 1, 2, 2, 2, 2, 3}); i > 0; i-- {
-			op.args = append(op.args, av(g.numArg(n)))
+			op.args = append(op.args, av(g.optNum(n)))
 		}
 	case 6: // splice
 		na := Pick(r, []int{0, 1, 1, 2, 2, 2, 2, 2, 2})
 		for i := 0; i < na; i++ {
-			op.args = append(op.args, av(g.numArg(n)))
+			op.args = append(op.args, av(g.optNum(n)))
 		}
 		if na == 2 {
 			for i := r.Intn(4); i > 0; i-- {
@@ -237,11 +265,7 @@ func (g *gen) call(rc Recv, m int) Op {
 		if r.Intn(12) > 0 {
 			op.args = append(op.args, av(search()))
 			if r.Intn(3) > 0 {
-				if r.Intn(6) == 0 {
-					op.args = append(op.args, av(vUndef))
-				} else {
-					op.args = append(op.args, av(g.numArg(n)))
-				}
+				op.args = append(op.args, av(g.optNum(n)))
 			}
 		}
 	case 10, 11, 12, 13, 14:
@@ -267,7 +291,12 @@ func (g *gen) call(rc Recv, m int) Op {
 			}
 		} else {
 			op.args = []Arg{{kind: 'c'}}
-			if r.Intn(2) == 0 {
+			switch r.Intn(8) {
+			case 0:
+				op.args = append(op.args, av(vUndef))
+			case 1:
+				op.args = append(op.args, av(vNull))
+			case 2, 3, 4:
 				op.args = append(op.args, av(g.val()))
 			}
 			op.cbs = g.cbScript(n, 0)
@@ -302,10 +331,10 @@ func (g *gen) extras(op *Op, rc Recv) {
 	case 0:
 		fill(1, func() Arg { return av(Pick(r, []V{vUndef, vStr(","), vStr("-"), vNull})) })
 	case 5:
-		fill(2, func() Arg { return av(g.numArg(n)) })
+		fill(2, func() Arg { return av(g.optNum(n)) })
 	case 8, 9:
 		fill(1, func() Arg { return av(g.val()) })
-		fill(2, func() Arg { return av(g.numArg(n)) })
+		fill(2, func() Arg { return av(g.optNum(n)) })
 	case 10, 11, 12, 13, 14:
 		if len(op.args) == 0 || op.args[0].kind != 'c' {
 			return
@@ -658,14 +687,77 @@ func (g *gen) pinned() {
 func runC08(env *Env) {
 	env.Import = "Otto.C08.Corr"
 	env.Rule = "receivers: arrays and array-likes of 0-8 slots (values, holes, all-holes), odd lengths for array-likes, inherited index properties on Object/Array.prototype; " +
-		"histories of 1-6 steps over assignments, deletes, defineProperty (elements and length), freeze/seal/preventExtensions and the 20 Array.prototype methods of the table (toString/toLocaleString included, with 0-2 superfluous arguments on every method) + sort; callbacks that append/grow/shrink/edit the receiver during the walk; mutators on sealed/frozen/non-extensible/non-writable/non-configurable receivers; array-likes whose length getter counts its reads; " +
+		"histories of 1-6 steps over assignments, deletes, defineProperty (elements and length), freeze/seal/preventExtensions and the 20 Array.prototype methods of the table (toString/toLocaleString included, with 0-2 superfluous arguments on every method) + sort; callbacks that append/grow/shrink/edit the receiver during the walk; mutators on sealed/frozen/non-extensible/non-writable/non-configurable receivers; array-likes whose length getter counts its reads; callbacks that overwrite/delete/redefine-as-getter the element being visited; receivers whose elements are counting getters (which value is used and how often each getter runs); explicit undefined / null / omission for every optional argument; " +
 		"numeric arguments drawn around 0, +-length, +-1/2, NaN, +-Infinity, +-2^31..2^64, undefined/null/booleans/digit strings; callbacks scripted (return value, mutation of the receiver, throw); " +
 		"every generated case counts as non-trivial when its text is distinct (the generator has no filler cases)"
 	g := &gen{env: env, r: env.Rng}
 	r := g.r
 	g.pinned()
 	for env.Count() < env.N {
-		switch k := r.Intn(33); {
+		switch k := r.Intn(39); {
+		case k == 38: // receivers whose length converts to 0: the methods still write length (15.4.4.6/9 step 4.a ...)
+			var rc Recv
+			var ops []Op
+			if r.Intn(3) == 0 {
+				rc = Recv{arr: true}
+				ops = append(ops, Pick(r, []Op{{kind: 'p', k: kName("length"), d: Desc{w: bp(false)}}, {kind: 'f'}, {kind: 'l'}, {kind: 'e'}}))
+			} else {
+				rc = Recv{elems: g.slots(r.Intn(3), 0)}
+				rc.length = Pick(r, []*V{nil, vp(vNum(math.NaN())), vp(vNum(0.5)), vp(vNum(-0.3)), vp(vNum(4294967296)), vp(vNull), vp(vUndef), vp(vBool(false)), vp(vStr("")), vp(vNum(math.Inf(1))), vp(vNum(math.Copysign(0, -1))), vp(vNum(8589934592))})
+			}
+			for i := 1 + r.Intn(2); i > 0; i-- {
+				m := Pick(r, []int{1, 1, 1, 4, 4, 2, 7, 6, 3})
+				op := Op{kind: 'c', m: m}
+				if (m == 2 || m == 7) && r.Intn(2) == 0 {
+					op.args = []Arg{av(g.val())}
+				}
+				ops = append(ops, op)
+			}
+			g.runHist(rc, ops, "zero-length")
+		case k >= 33 && k < 36: // callbacks that overwrite / delete / redefine THE ELEMENT BEING VISITED
+			rc := g.recv(false)
+			for len(rc.elems) < 2 || rc.lenGuess() > 10 {
+				rc = g.recv(false)
+			}
+			if r.Intn(4) == 0 {
+				rc.getters = map[int][2]int{r.Intn(len(rc.elems)): {1, r.Intn(9)}}
+			}
+			var ops []Op
+			for i := 1 + r.Intn(2); i > 0; i-- {
+				m := Pick(r, []int{10, 11, 12, 13, 14, 14, 14, 15, 16})
+				op := Op{kind: 'c', m: m, args: []Arg{{kind: 'c'}}, cbs: g.cbScript(rc.lenGuess(), 3)}
+				if m >= 15 && r.Intn(2) == 0 {
+					op.args = append(op.args, av(g.val()))
+				}
+				ops = append(ops, op)
+			}
+			g.runHist(rc, ops, "visited-element")
+		case k >= 36: // receivers some of whose elements are counting getters (no setter): every method
+			n := 1 + r.Intn(6)
+			rc := Recv{arr: r.Intn(10) < 7, elems: g.slots(n, Pick(r, []int{0, 0, 1, 2}))}
+			if !rc.arr {
+				rc.length = vp(vNum(float64(n)))
+			}
+			rc.getters = map[int][2]int{}
+			for i := 1 + r.Intn(3); i > 0; i-- {
+				j := r.Intn(n)
+				rc.getters[j] = [2]int{j + 1, r.Intn(9)}
+			}
+			if r.Intn(5) == 0 {
+				rc.proto = map[int64]Prop{int64(r.Intn(n + 1)): {v: vStr("P"), w: true, e: true, c: true}}
+			}
+			var ops []Op
+			for i := 1 + r.Intn(2); i > 0; i-- {
+				m := g.anyMethod(rc)
+				op := g.call(rc, m)
+				if (m == 8 || m == 9) && len(op.args) > 0 && r.Intn(2) == 0 { // search for what a getter returns
+					for _, gp := range rc.getters {
+						op.args[0] = av(vNum(float64(gp[1])))
+					}
+				}
+				ops = append(ops, op)
+			}
+			g.runHist(rc, ops, "element-getters")
 		case k == 31: // push / pop / append where length + argCount crosses 2^32 (array-likes: n is a mathematical integer)
 			rc := Recv{elems: g.slots(r.Intn(3), 0)}
 			rc.length = vp(Pick(r, []V{vNum(4294967295), vNum(4294967294), vNum(4294967293), vNum(-1), vNum(-2), vNum(-3), vNum(8589934591), vNum(8589934590), vNum(4294967295.9), vStr("4294967295")}))
